@@ -27,6 +27,9 @@ type Machine struct {
 	Presented []*z80.Interrupt        // every request the controller put into the slot, in order
 	Hook      func(m *Machine, a Acc) // extra per-access hook (after the controller)
 	NoPresent bool                    // when set the controller never touches cpu.Interrupt
+	// RestoreHALT: Restore also copies the HALT field (C09's crash event keeps it; C10 does not:
+	// its statement lists registers, flags, IFF/IM and the pending request only).
+	RestoreHALT bool
 	// Mutated: set when a kept request value was found modified (see request()).
 	Mutated string
 	// ReuseRequests: see request(). Set by NewMachine from the scenario (odd IOSeed).
@@ -111,6 +114,12 @@ func (m *Machine) present() {
 func (m *Machine) onAccess(b *Bus, a Acc) {
 	for i := range m.evs {
 		if !m.raised[i] && m.evs[i].AtTick != 0 && m.evs[i].AtTick == b.Tick {
+			if m.evs[i].Force && !m.NoPresent {
+				m.raised[i] = true
+				m.CPU.Interrupt = m.request(i)
+				m.Raised["forced/"+m.evs[i].Kind]++
+				continue
+			}
 			m.enqueue(i, "tick")
 		}
 	}
@@ -244,7 +253,10 @@ func (m *Machine) Restore() *Machine {
 		Raised: m.Raised, Accepted: m.Accepted, AccSP: m.AccSP, AccPC: m.AccPC, AccKinds: m.AccKinds,
 		Presented: m.Presented, Hook: m.Hook, NoPresent: m.NoPresent, SwapMode: m.SwapMode, ReuseRequests: m.ReuseRequests, reqCache: m.reqCache}
 	n.CPU = &z80.CPU{States: m.CPU.States, Memory: nb.Memory(), IO: nb.IO(), RETNHandler: n.Cnt, RETIHandler: n.Cnt,
-		Interrupt: CloneRequest(m.CPU.Interrupt), BreakPoints: m.CPU.BreakPoints, HALT: m.CPU.HALT}
+		Interrupt: CloneRequest(m.CPU.Interrupt), BreakPoints: m.CPU.BreakPoints}
+	if m.RestoreHALT {
+		n.CPU.HALT = m.CPU.HALT
+	}
 	nb.OnAccess = n.onAccess
 	n.Cnt.OnRet = n.onRet
 	return n
